@@ -1,10 +1,11 @@
 #!/bin/bash
 # compile the synthesized comma-decimal locale offline into /verif/build/locale/vf_COMMA
 set -u
-out=/verif/build/locale
+V=${VERIF_DIR:-$(cd "$(dirname "${BASH_SOURCE[0]}")/.." && pwd)}
+out=$V/build/locale
 mkdir -p "$out"
 if [ -f "$out/vf_COMMA/LC_NUMERIC" ]; then exit 0; fi
-localedef --no-archive -c -f /verif/locale/VF-ASCII.charmap -i /verif/locale/vf_COMMA.src "$out/vf_COMMA" >"$out/localedef.log" 2>&1
+localedef --no-archive -c -f "$V/locale/VF-ASCII.charmap" -i "$V/locale/vf_COMMA.src" "$out/vf_COMMA" >"$out/localedef.log" 2>&1
 if [ ! -f "$out/vf_COMMA/LC_NUMERIC" ]; then
 	echo "localedef failed; see $out/localedef.log" >&2
 	tail -5 "$out/localedef.log" >&2
